@@ -1,1 +1,900 @@
-fn main() {}
+//! C19 driver: replays TLC-generated call histories / thread programs on the REAL `extern "C"`
+//! functions of /repo/ffi/storm-ffi (source-included) and records one `Inv` and one `Ret` event per
+//! call. It records only; Trace_StormFfi.tla decides.
+//!
+//!   c19 <cases.ndjson> <trace.ndjson>                 parent: runs workers, stitches the trace
+//!   c19 <cases.ndjson> <part> worker <start> <stem>   worker: cases start.. in this process
+//!
+//! A crash (abort / signal) of the code under test kills the worker: the parent closes the open
+//! calls with `Ret{st:"abort"}` and restarts behind the case. A call that does not return within the
+//! watchdog limit is closed with `Ret{st:"hang"}` by the worker itself, which then asks for a
+//! restart (exit status 3) because the hung thread may own a global Mutex.
+#![allow(non_snake_case, non_camel_case_types, dead_code, unused_unsafe, clippy::all)]
+
+#[path = "/repo/ffi/storm-ffi/src/lib.rs"]
+#[allow(warnings)]
+mod storm;
+
+use std::collections::HashMap;
+use std::ffi::{c_void, CStr, CString};
+use std::path::{Path, PathBuf};
+use std::sync::atomic::{AtomicBool, AtomicUsize, Ordering};
+use std::sync::{Arc, Condvar, Mutex};
+use std::time::{Duration, Instant};
+use wverif_common::*;
+
+const CANARY: usize = 64;
+const FILL: u8 = 0xA5;
+const NAMES: [&str; 16] = ["f0", "f1", "f2", "f3", "g0", "g1", "g2", "g3", "g4", "g5", "g6", "g7", "g8", "g9", "ga", "gb"];
+
+// ------------------------------------------------------------------------------------------
+// canary-guarded buffers
+// ------------------------------------------------------------------------------------------
+struct Guarded {
+    raw: Vec<u8>,
+    cap: usize,
+}
+impl Guarded {
+    fn new(cap: usize) -> Self {
+        Guarded { raw: vec![FILL; cap + 2 * CANARY], cap }
+    }
+    fn ptr(&mut self) -> *mut u8 {
+        unsafe { self.raw.as_mut_ptr().add(CANARY) }
+    }
+    fn data(&self) -> &[u8] {
+        &self.raw[CANARY..CANARY + self.cap]
+    }
+    fn intact(&self) -> bool {
+        self.raw[..CANARY].iter().all(|b| *b == FILL) && self.raw[CANARY + self.cap..].iter().all(|b| *b == FILL)
+    }
+}
+
+fn err_class(e: u32) -> &'static str {
+    match e {
+        0 => "ok",
+        2 => "not_found",
+        5 => "access_denied",
+        6 => "invalid_handle",
+        18 => "no_more_files",
+        50 => "not_supported",
+        87 => "invalid_param",
+        122 => "insufficient_buffer",
+        183 => "exists",
+        1392 => "corrupt",
+        _ => "other",
+    }
+}
+
+fn real_name(n: &str) -> String {
+    if NAMES.contains(&n) {
+        format!("data\\{n}.bin")
+    } else {
+        n.to_string()
+    }
+}
+fn model_name(n: &str) -> String {
+    for m in NAMES {
+        if n.eq_ignore_ascii_case(&format!("data\\{m}.bin")) {
+            return m.to_string();
+        }
+    }
+    n.to_string()
+}
+
+// ------------------------------------------------------------------------------------------
+// per-case world
+// ------------------------------------------------------------------------------------------
+struct World {
+    dir: PathBuf,
+    hmap: HashMap<i64, usize>,          // model handle -> real handle
+    next_model: i64,
+    arch_file: HashMap<usize, String>,  // real archive handle -> model file ("A"/"B")
+    twins: HashMap<usize, wow_mpq::MutableArchive>,
+    src_n: usize,
+    version: u32,
+    compression: u32,
+}
+
+impl World {
+    fn path(&self, f: &str) -> PathBuf {
+        self.dir.join(format!("{f}.mpq"))
+    }
+    fn real(&self, h: i64) -> usize {
+        if h == 0 {
+            0
+        } else {
+            *self.hmap.get(&h).unwrap_or(&(1_000_000 + h as usize))
+        }
+    }
+    fn learn(&mut self, real: usize) {
+        let m = self.next_model;
+        self.hmap.insert(m, real);
+        self.next_model += 1;
+    }
+}
+
+fn bytes_of(v: &Value) -> Option<Vec<u8>> {
+    let a = v.as_array()?;
+    if a.len() == 1 && a[0].as_i64() == Some(-1) {
+        return None;
+    }
+    Some(a.iter().map(|x| x.as_i64().unwrap_or(0) as u8).collect())
+}
+fn jbytes(b: &Option<Vec<u8>>) -> Value {
+    match b {
+        None => json!([-1]),
+        Some(v) => json!(v),
+    }
+}
+
+/// Build the archive files of the case with ArchiveBuilder and observe them through the Rust API.
+fn build_disk(case: &Value, w: &World, rng: &mut Rng) -> (Value, Value) {
+    let mut disk = Map::new();
+    let mut order = Map::new();
+    for f in ["A", "B"] {
+        let spec = &case["disk"][f];
+        let mut b = wow_mpq::ArchiveBuilder::new()
+            .version(if rng.chance(1, 2) { wow_mpq::FormatVersion::V1 } else { wow_mpq::FormatVersion::V2 })
+            .listfile_option(wow_mpq::ListfileOption::Generate);
+        for n in NAMES {
+            if let Some(bytes) = spec.get(n).and_then(bytes_of) {
+                b = b.add_file_data(bytes, &real_name(n));
+            }
+        }
+        let p = w.path(f);
+        if let Err(e) = b.build(&p) {
+            tool_error(&format!("cannot build {p:?}: {e:?}"));
+        }
+        let (m, o) = observe_archive(&p);
+        disk.insert(f.to_string(), m);
+        order.insert(f.to_string(), o);
+    }
+    (Value::Object(disk), Value::Object(order))
+}
+
+/// name -> bytes map and listing order of an archive file as the Rust API (`Archive`) reports them.
+fn observe_archive(p: &Path) -> (Value, Value) {
+    let mut m = Map::new();
+    let mut order = Vec::new();
+    match wow_mpq::Archive::open(p) {
+        Ok(mut a) => {
+            if let Ok(l) = a.list() {
+                for e in l {
+                    order.push(Value::String(model_name(&e.name)));
+                }
+            }
+            for n in NAMES {
+                let r = match a.find_file(&real_name(n)) {
+                    Ok(Some(_)) => a.read_file(&real_name(n)).ok(),
+                    _ => None,
+                };
+                m.insert(n.to_string(), jbytes(&r));
+            }
+        }
+        Err(_) => {
+            for n in NAMES {
+                m.insert(n.to_string(), json!([-1]));
+            }
+        }
+    }
+    (Value::Object(m), Value::Array(order))
+}
+
+fn observe_twin(t: &mut wow_mpq::MutableArchive) -> Value {
+    let mut m = Map::new();
+    for n in NAMES {
+        let r = match t.find_file(&real_name(n)) {
+            Ok(Some(_)) => t.read_file(&real_name(n)).ok(),
+            _ => None,
+        };
+        m.insert(n.to_string(), jbytes(&r));
+    }
+    Value::Object(m)
+}
+
+// ------------------------------------------------------------------------------------------
+// event log shared by the threads of a case (Inv strictly before the call, Ret strictly after)
+// ------------------------------------------------------------------------------------------
+struct Log {
+    t: Trace,
+    pending: Mutex<HashMap<String, (String, Instant)>>,
+}
+impl Log {
+    fn ev(&self, v: Value) {
+        self.t.ev(v);
+        self.t.flush();
+    }
+}
+
+struct Res {
+    ret: i64,
+    out: Value,
+    err: &'static str,
+    rres: &'static str,
+    canary: bool,
+    sync: Option<(i64, Value)>,
+    newh: Option<usize>,
+}
+
+fn last_err() -> &'static str {
+    err_class(storm::SFileGetLastError())
+}
+
+extern "C" fn enum_cb(name: *const libc::c_char, user: *mut c_void) -> bool {
+    let v = unsafe { &mut *(user as *mut Vec<String>) };
+    v.push(unsafe { CStr::from_ptr(name) }.to_string_lossy().into_owned());
+    true
+}
+
+/// Execute one abstract call on the real C API.
+fn exec(w: &Mutex<World>, call: &Value) -> Res {
+    let f = gs(call, "fn");
+    let hm = gi(call, "h");
+    let name = gs(call, "name");
+    let n1 = gi(call, "n1");
+    let n2 = gi(call, "n2");
+    let dat = &call["dat"];
+    let h = { w.lock().unwrap().real(hm) };
+    let hp = h as storm::HANDLE;
+    let cname = CString::new(real_name(name)).unwrap();
+    let mut r = Res { ret: 0, out: json!([]), err: "ok", rres: "-", canary: true, sync: None, newh: None };
+    unsafe {
+        match f {
+            "OpenArchive" => {
+                let (p, version) = {
+                    let g = w.lock().unwrap();
+                    (g.path(name), g.version)
+                };
+                let cp = CString::new(p.to_str().unwrap()).unwrap();
+                let mut out = Guarded::new(8);
+                let ok = match n1 {
+                    0 => storm::SFileOpenArchive(cp.as_ptr(), 0, 0, out.ptr() as *mut storm::HANDLE),
+                    1 => {
+                        let info = storm::SFILE_CREATE_MPQ {
+                            cb_size: std::mem::size_of::<storm::SFILE_CREATE_MPQ>() as u32,
+                            mpq_version: version,
+                            user_data: std::ptr::null_mut(),
+                            cb_user_data: 0,
+                            stream_flags: 0,
+                            file_flags_1: 1,
+                            file_flags_2: 0,
+                            file_flags_3: 0,
+                            attr_flags: 0,
+                            sector_size: 3,
+                            raw_chunk_size: 0,
+                            max_file_count: n2 as u32,
+                        };
+                        storm::SFileCreateArchive2(cp.as_ptr(), &info, out.ptr() as *mut storm::HANDLE)
+                    }
+                    _ => storm::SFileCreateArchive(cp.as_ptr(), 2, 16, out.ptr() as *mut storm::HANDLE),
+                };
+                r.err = last_err();
+                r.canary = out.intact();
+                if ok {
+                    let hv = usize::from_ne_bytes(out.data()[..8].try_into().unwrap());
+                    r.ret = hv as i64;
+                    r.newh = Some(hv);
+                    let mut g = w.lock().unwrap();
+                    g.arch_file.insert(hv, name.to_string());
+                    if n1 == 1 {
+                        // reference: the Rust API on a twin copy of the freshly created archive
+                        let tp = g.dir.join(format!("{name}.twin{hv}.mpq"));
+                        if std::fs::copy(&p, &tp).is_ok() {
+                            if let Ok(t) = wow_mpq::MutableArchive::open(&tp) {
+                                g.twins.insert(hv, t);
+                            }
+                        }
+                    }
+                }
+            }
+            "CloseArchive" => {
+                r.ret = storm::SFileCloseArchive(hp) as i64;
+                r.err = last_err();
+                if r.ret == 1 {
+                    let mut g = w.lock().unwrap();
+                    g.twins.remove(&h);
+                }
+            }
+            "OpenFileEx" => {
+                let mut out = Guarded::new(8);
+                let ok = storm::SFileOpenFileEx(hp, cname.as_ptr(), 0, out.ptr() as *mut storm::HANDLE);
+                r.err = last_err();
+                r.canary = out.intact();
+                if ok {
+                    let hv = usize::from_ne_bytes(out.data()[..8].try_into().unwrap());
+                    r.ret = hv as i64;
+                    r.newh = Some(hv);
+                }
+            }
+            "CloseFile" => {
+                r.ret = storm::SFileCloseFile(hp) as i64;
+                r.err = last_err();
+            }
+            "ReadFile" => {
+                // n1 = to_read (clamped to 2^31-1 in the log; n2 = 1: really pass 0xFFFFFFFF)
+                let to_read: u32 = if n2 == 1 { u32::MAX } else { n1 as u32 };
+                let cap = (to_read as usize).min(256);
+                let mut buf = Guarded::new(cap);
+                let mut got = Guarded::new(4);
+                let ok = storm::SFileReadFile(hp, buf.ptr() as *mut c_void, to_read, got.ptr() as *mut u32, std::ptr::null_mut());
+                r.err = last_err();
+                r.ret = ok as i64;
+                r.canary = buf.intact() && got.intact();
+                if ok {
+                    let n = u32::from_ne_bytes(got.data()[..4].try_into().unwrap()) as usize;
+                    if n <= cap {
+                        r.out = json!(buf.data()[..n].to_vec());
+                        // bytes behind the reported count must be untouched
+                        if !buf.data()[n..].iter().all(|b| *b == FILL) {
+                            r.canary = false;
+                        }
+                    } else {
+                        r.out = json!([n as i64, -2]);
+                    }
+                }
+            }
+            "GetFileSize" => {
+                let mut hi = Guarded::new(4);
+                let v = storm::SFileGetFileSize(hp, hi.ptr() as *mut u32);
+                r.err = last_err();
+                r.canary = hi.intact();
+                r.ret = if v == u32::MAX { -1 } else { v as i64 };
+            }
+            "SetFilePointer" => {
+                let v = storm::SFileSetFilePointer(hp, n1 as i32, std::ptr::null_mut(), n2 as u32);
+                r.err = last_err();
+                r.ret = if v == u32::MAX { -1 } else { v as i64 };
+            }
+            "GetFileName" => {
+                let mut buf = Guarded::new(1024);
+                let ok = storm::SFileGetFileName(hp, buf.ptr() as *mut libc::c_char);
+                r.err = last_err();
+                r.ret = ok as i64;
+                r.canary = buf.intact();
+                if ok {
+                    let s = CStr::from_ptr(buf.ptr() as *const libc::c_char).to_string_lossy().into_owned();
+                    r.out = json!([model_name(&s)]);
+                }
+            }
+            "GetFileInfo" => {
+                let mut buf = Guarded::new(n2 as usize);
+                let mut need = Guarded::new(4);
+                let ok = storm::SFileGetFileInfo(hp, n1 as u32, buf.ptr() as *mut c_void, n2 as u32, need.ptr() as *mut u32);
+                r.err = last_err();
+                r.ret = ok as i64;
+                r.canary = buf.intact() && need.intact();
+                if ok && n2 >= 8 && (n1 == 7 || n1 == 10) {
+                    r.out = json!([u64::from_ne_bytes(buf.data()[..8].try_into().unwrap()) as i64]);
+                }
+            }
+            "HasFile" => {
+                r.ret = storm::SFileHasFile(hp, cname.as_ptr()) as i64;
+                r.err = last_err();
+                let mut g = w.lock().unwrap();
+                if let Some(t) = g.twins.get_mut(&h) {
+                    r.rres = if matches!(t.find_file(&real_name(name)), Ok(Some(_))) { "yes" } else { "no" };
+                }
+            }
+            "VerifyFile" => {
+                r.ret = storm::SFileVerifyFile(hp, cname.as_ptr(), 0) as i64;
+                r.err = last_err();
+            }
+            "EnumFiles" => {
+                let mut names: Vec<String> = Vec::new();
+                let ok = storm::SFileEnumFiles(hp, std::ptr::null(), std::ptr::null(), Some(enum_cb), &mut names as *mut _ as *mut c_void);
+                r.err = last_err();
+                r.ret = ok as i64;
+                let mut l: Vec<String> = names.iter().map(|n| model_name(n)).filter(|n| !n.starts_with('(')).collect();
+                l.sort();
+                r.out = json!(l);
+            }
+            "GetArchiveName" => {
+                let plen = { let g = w.lock().unwrap(); g.arch_file.get(&h).map(|f| g.path(f).to_str().unwrap().len()).unwrap_or(10) };
+                let size = match n2 { 0 => 0, 1 => 4096, 2 => plen, _ => plen + 1 };
+                let mut buf = Guarded::new(size);
+                let ok = storm::SFileGetArchiveName(hp, buf.ptr() as *mut libc::c_char, size as u32);
+                r.err = last_err();
+                r.ret = ok as i64;
+                r.canary = buf.intact();
+                if ok {
+                    let s = CStr::from_ptr(buf.ptr() as *const libc::c_char).to_string_lossy().into_owned();
+                    let stem = Path::new(&s).file_stem().map(|x| x.to_string_lossy().into_owned()).unwrap_or_default();
+                    r.out = json!([stem]);
+                }
+            }
+            "ExtractFile" => {
+                let dest = { let mut g = w.lock().unwrap(); g.src_n += 1; g.dir.join(format!("x{}.out", g.src_n)) };
+                let cd = CString::new(dest.to_str().unwrap()).unwrap();
+                let ok = storm::SFileExtractFile(hp, cname.as_ptr(), cd.as_ptr(), 0);
+                r.err = last_err();
+                r.ret = ok as i64;
+                if ok {
+                    r.out = json!(std::fs::read(&dest).unwrap_or_default());
+                }
+            }
+            "AddFile" => {
+                let bytes = bytes_of(dat).unwrap_or_default();
+                let (src, comp) = { let mut g = w.lock().unwrap(); g.src_n += 1; (g.dir.join(format!("s{}.in", g.src_n)), g.compression) };
+                std::fs::write(&src, &bytes).unwrap();
+                let cs = CString::new(src.to_str().unwrap()).unwrap();
+                let flags: u32 = if n1 == 1 { 0x8000_0000 } else { 0 };
+                let ok = storm::SFileAddFileEx(hp, cs.as_ptr(), cname.as_ptr(), flags, comp, 0);
+                r.err = last_err();
+                r.ret = ok as i64;
+                let mut g = w.lock().unwrap();
+                if let Some(t) = g.twins.get_mut(&h) {
+                    use wow_mpq::compression::CompressionMethod as CM;
+                    let mut o = wow_mpq::AddFileOptions::new().compression(if comp == 0 { CM::None } else { CM::Zlib });
+                    if n1 == 1 {
+                        o = o.replace_existing(true);
+                    }
+                    r.rres = if t.add_file(&src, &real_name(name), o).is_ok() { "ok" } else { "fail" };
+                }
+            }
+            "RemoveFile" => {
+                r.ret = storm::SFileRemoveFile(hp, cname.as_ptr(), 0) as i64;
+                r.err = last_err();
+                let mut g = w.lock().unwrap();
+                if let Some(t) = g.twins.get_mut(&h) {
+                    r.rres = if t.remove_file(&real_name(name)).is_ok() { "ok" } else { "fail" };
+                }
+            }
+            "RenameFile" => {
+                let nn = dat.as_array().and_then(|a| a.first()).and_then(|x| x.as_str()).unwrap_or("f3").to_string();
+                let cn = CString::new(real_name(&nn)).unwrap();
+                r.ret = storm::SFileRenameFile(hp, cname.as_ptr(), cn.as_ptr()) as i64;
+                r.err = last_err();
+                let mut g = w.lock().unwrap();
+                if let Some(t) = g.twins.get_mut(&h) {
+                    r.rres = if t.rename_file(&real_name(name), &real_name(&nn)).is_ok() { "ok" } else { "fail" };
+                }
+            }
+            "FlushArchive" => {
+                r.ret = if n1 == 0 { storm::SFileFlushArchive(hp) } else { storm::SFileCompactArchive(hp, std::ptr::null(), false) } as i64;
+                r.err = last_err();
+                let mut g = w.lock().unwrap();
+                if let Some(t) = g.twins.get_mut(&h) {
+                    let rr = if n1 == 0 { t.flush() } else { t.compact() };
+                    r.rres = if rr.is_ok() { "ok" } else { "fail" };
+                    r.sync = Some((h as i64, observe_twin(t)));
+                }
+            }
+            "VerifyArchive" => {
+                r.ret = storm::SFileVerifyArchive(hp, if n1 == 1 { 0x20 } else { 0 }) as i64;
+                r.err = last_err();
+            }
+            "FindFirst" => {
+                let sz = std::mem::size_of::<storm::SFILE_FIND_DATA>();
+                let mut fd = Guarded::new(sz + 8);
+                let p = fd.ptr().add(fd.ptr().align_offset(8)) as *mut storm::SFILE_FIND_DATA;
+                let mask = CString::new("*").unwrap();
+                let hv = storm::SFileFindFirstFile(hp, mask.as_ptr(), p, std::ptr::null());
+                r.err = last_err();
+                r.canary = fd.intact();
+                if !hv.is_null() {
+                    r.ret = hv as usize as i64;
+                    r.newh = Some(hv as usize);
+                    let s = CStr::from_ptr((*p).c_file_name.as_ptr()).to_string_lossy().into_owned();
+                    r.out = json!([model_name(&s)]);
+                }
+            }
+            "FindNext" => {
+                let sz = std::mem::size_of::<storm::SFILE_FIND_DATA>();
+                let mut fd = Guarded::new(sz + 8);
+                let p = fd.ptr().add(fd.ptr().align_offset(8)) as *mut storm::SFILE_FIND_DATA;
+                let ok = storm::SFileFindNextFile(hp, p);
+                r.err = last_err();
+                r.ret = ok as i64;
+                r.canary = fd.intact();
+                if ok {
+                    let s = CStr::from_ptr((*p).c_file_name.as_ptr()).to_string_lossy().into_owned();
+                    r.out = json!([model_name(&s)]);
+                }
+            }
+            "FindClose" => {
+                r.ret = storm::SFileFindClose(hp) as i64;
+                r.err = last_err();
+            }
+            _ => tool_error(&format!("unknown fn {f}")),
+        }
+    }
+    if let Some(hv) = r.newh {
+        w.lock().unwrap().learn(hv);
+    }
+    r
+}
+
+/// One logged call of thread `th`: Inv, the real call, Ret.
+fn logged_call(log: &Log, w: &Mutex<World>, case: &str, th: &str, call: &Value) {
+    let f = gs(call, "fn").to_string();
+    let h = { w.lock().unwrap().real(gi(call, "h")) } as i64;
+    let n1 = gi(call, "n1").clamp(i32::MIN as i64, i32::MAX as i64);
+    log.pending.lock().unwrap().insert(th.to_string(), (f.clone(), Instant::now()));
+    log.ev(json!({"ev":"Inv","case":case,"th":th,"fn":f,"h":h,"name":gs(call,"name"),"n1":n1,"n2":gi(call,"n2"),"dat":call["dat"]}));
+    let r = exec(w, call);
+    log.pending.lock().unwrap().remove(th);
+    log.ev(json!({"ev":"Ret","case":case,"th":th,"fn":f,"st":"ok","ret":r.ret,"out":r.out,"err":r.err,"rres":r.rres,"canary":r.canary}));
+    if let Some((hh, m)) = r.sync {
+        log.ev(json!({"ev":"Sync","case":case,"th":th,"h":hh,"rmap":m}));
+    }
+}
+
+// ------------------------------------------------------------------------------------------
+// schedule control
+// ------------------------------------------------------------------------------------------
+thread_local! { static TH_NAME: std::cell::RefCell<String> = const { std::cell::RefCell::new(String::new()) }; }
+
+/// Turn-based scheduler used with the `verif_sync` hook: a thread arriving at a sync point parks
+/// until the controller grants it a turn; it then runs up to its next sync point.
+struct Sched {
+    m: Mutex<SchedState>,
+    cv: Condvar,
+}
+#[derive(Default)]
+struct SchedState {
+    active: bool,
+    parked: HashMap<String, String>, // thread -> point it is parked at
+    grant: Option<String>,
+    finished: Vec<String>,
+    free_run: bool,
+}
+static SCHED: std::sync::OnceLock<Sched> = std::sync::OnceLock::new();
+fn sched() -> &'static Sched {
+    SCHED.get_or_init(|| Sched { m: Mutex::new(SchedState::default()), cv: Condvar::new() })
+}
+
+#[cfg(c19_has_hook)]
+fn sync_hook(point: &'static str) {
+    let me = TH_NAME.with(|n| n.borrow().clone());
+    if me.is_empty() {
+        return;
+    }
+    let s = sched();
+    let mut g = s.m.lock().unwrap();
+    if !g.active || g.free_run {
+        return;
+    }
+    g.parked.insert(me.clone(), point.to_string());
+    s.cv.notify_all();
+    loop {
+        if g.free_run || !g.active {
+            break;
+        }
+        if g.grant.as_deref() == Some(me.as_str()) {
+            g.grant = None;
+            break;
+        }
+        g = s.cv.wait(g).unwrap();
+    }
+    g.parked.remove(&me);
+    s.cv.notify_all();
+}
+
+/// Holds ARCHIVES from inside an SFileEnumFiles callback until released (schedule control that
+/// needs no hook: every thread that wants ARCHIVES queues up behind the gate).
+struct Gate {
+    open: Mutex<bool>,
+    cv: Condvar,
+    entered: AtomicBool,
+}
+extern "C" fn gate_cb(_name: *const libc::c_char, user: *mut c_void) -> bool {
+    let g = unsafe { &*(user as *const Gate) };
+    g.entered.store(true, Ordering::SeqCst);
+    let mut o = g.open.lock().unwrap();
+    while !*o {
+        o = g.cv.wait(o).unwrap();
+    }
+    false
+}
+
+// ------------------------------------------------------------------------------------------
+// a case
+// ------------------------------------------------------------------------------------------
+fn run_case(log: &Arc<Log>, idx: usize, case: &Value, limit: Duration) -> bool {
+    let cid = format!("{}:{}", idx, gs(case, "kind"));
+    let sc = Scratch::new("c19");
+    let mut rng = Rng::derive(seed(), &format!("c19:{}", case.get("id").map(|x| x.to_string()).unwrap_or_default()));
+    let world = World {
+        dir: sc.path.clone(),
+        hmap: HashMap::new(),
+        next_model: 1,
+        arch_file: HashMap::new(),
+        twins: HashMap::new(),
+        src_n: 0,
+        version: if rng.chance(1, 2) { 1 } else { 2 },
+        compression: if rng.chance(1, 2) { 0 } else { 2 },
+    };
+    let (disk, order) = build_disk(case, &world, &mut rng);
+    let hook = cfg!(c19_has_hook);
+    log.ev(json!({"ev":"Reset","case":cid,"kind":gs(case,"kind"),"disk":disk,"order":order,"hook":hook,
+                  "label":case.get("label").cloned().unwrap_or(json!("")) }));
+    let w = Arc::new(Mutex::new(world));
+    let done = Arc::new(AtomicUsize::new(0));
+    let mut nthreads = 0usize;
+    // setup calls run before the threads start, as thread T0
+    let setup: Vec<Value> = case.get("setup").and_then(|x| x.as_array()).cloned().unwrap_or_default();
+    let progs = case.get("prog").and_then(|x| x.as_object()).cloned().unwrap_or_default();
+    let order: Vec<String> = case.get("order").and_then(|x| x.as_array()).map(|a| a.iter().filter_map(|x| x.as_str().map(String::from)).collect())
+        .unwrap_or_else(|| { let mut k: Vec<String> = progs.keys().cloned().collect(); k.sort(); k });
+    let use_gate = case.get("gate").and_then(|x| x.as_bool()).unwrap_or(false) && !hook;
+    let turns: Vec<String> = case.get("turns").and_then(|x| x.as_array()).map(|a| a.iter().filter_map(|x| x.as_str().map(String::from)).collect()).unwrap_or_default();
+    let use_turns = hook && !turns.is_empty();
+
+    let (l2, w2, c2, d2) = (log.clone(), w.clone(), cid.clone(), done.clone());
+    let setup_t = std::thread::spawn(move || {
+        for c in &setup {
+            logged_call(&l2, &w2, &c2, "T0", c);
+        }
+        d2.fetch_add(1, Ordering::SeqCst);
+    });
+    nthreads += 1;
+    let t0 = Instant::now();
+    while done.load(Ordering::SeqCst) < 1 {
+        if t0.elapsed() > limit {
+            return false;
+        }
+        std::thread::sleep(Duration::from_micros(200));
+    }
+    let _ = setup_t.join();
+
+    // optional gate: hold ARCHIVES while the threads are started in the prescribed order
+    let gate = Arc::new(Gate { open: Mutex::new(false), cv: Condvar::new(), entered: AtomicBool::new(false) });
+    let mut gate_thread = None;
+    let mut gate_h: usize = 0;
+    if use_gate {
+        let gp = sc.path.join("gate.mpq");
+        let _ = wow_mpq::ArchiveBuilder::new().add_file_data(vec![1], "g.bin").build(&gp);
+        let cp = CString::new(gp.to_str().unwrap()).unwrap();
+        let mut hh: storm::HANDLE = std::ptr::null_mut();
+        unsafe { storm::SFileOpenArchive(cp.as_ptr(), 0, 0, &mut hh) };
+        gate_h = hh as usize;
+        let g2 = gate.clone();
+        gate_thread = Some(std::thread::spawn(move || unsafe {
+            storm::SFileEnumFiles(gate_h as storm::HANDLE, std::ptr::null(), std::ptr::null(), Some(gate_cb), Arc::as_ptr(&g2) as *mut c_void);
+        }));
+        let t = Instant::now();
+        while !gate.entered.load(Ordering::SeqCst) && t.elapsed() < Duration::from_secs(2) {
+            std::thread::sleep(Duration::from_micros(200));
+        }
+    }
+    if use_turns {
+        let s = sched();
+        let mut g = s.m.lock().unwrap();
+        *g = SchedState::default();
+        g.active = true;
+    }
+    let mut handles = Vec::new();
+    for th in &order {
+        let Some(p) = progs.get(th) else { continue };
+        let calls: Vec<Value> = p.as_array().cloned().unwrap_or_default();
+        let (l2, w2, c2, d2, th2) = (log.clone(), w.clone(), cid.clone(), done.clone(), th.to_uppercase());
+        let stagger = rng.below(300);
+        handles.push(std::thread::spawn(move || {
+            TH_NAME.with(|n| *n.borrow_mut() = th2.clone());
+            if !use_turns && !use_gate {
+                std::thread::sleep(Duration::from_micros(stagger));
+            }
+            for c in &calls {
+                logged_call(&l2, &w2, &c2, &th2, c);
+            }
+            TH_NAME.with(|n| n.borrow_mut().clear());
+            if use_turns {
+                let s = sched();
+                s.m.lock().unwrap().finished.push(th2.clone());
+                s.cv.notify_all();
+            }
+            d2.fetch_add(1, Ordering::SeqCst);
+        }));
+        nthreads += 1;
+        if use_gate {
+            std::thread::sleep(Duration::from_millis(12));
+        }
+    }
+    if use_gate {
+        std::thread::sleep(Duration::from_millis(15));
+        *gate.open.lock().unwrap() = true;
+        gate.cv.notify_all();
+    }
+    if use_turns {
+        // grant the turns of the TLC schedule; a thread that is not parked (blocked on a Mutex, or
+        // finished) simply keeps its turn pending for a short while
+        let s = sched();
+        for th in &turns {
+            let t = Instant::now();
+            let mut g = s.m.lock().unwrap();
+            // wait until the thread is parked at a sync point (or finished)
+            while !g.parked.contains_key(th) && !g.finished.contains(th) && t.elapsed() < Duration::from_millis(300) {
+                let (g2, _) = s.cv.wait_timeout(g, Duration::from_millis(5)).unwrap();
+                g = g2;
+            }
+            if g.parked.contains_key(th) {
+                g.grant = Some(th.clone());
+                s.cv.notify_all();
+                // wait until it has left the sync point and reached the next one / finished / blocked
+                let t2 = Instant::now();
+                while g.grant.is_some() && t2.elapsed() < Duration::from_millis(300) {
+                    let (g2, _) = s.cv.wait_timeout(g, Duration::from_millis(5)).unwrap();
+                    g = g2;
+                }
+                let t3 = Instant::now();
+                while !g.parked.contains_key(th) && !g.finished.contains(th) && t3.elapsed() < Duration::from_millis(60) {
+                    let (g2, _) = s.cv.wait_timeout(g, Duration::from_millis(2)).unwrap();
+                    g = g2;
+                }
+            }
+        }
+        let mut g = s.m.lock().unwrap();
+        g.free_run = true;
+        s.cv.notify_all();
+    }
+    let t0 = Instant::now();
+    let mut ok = true;
+    while done.load(Ordering::SeqCst) < nthreads {
+        if t0.elapsed() > limit {
+            ok = false;
+            break;
+        }
+        std::thread::sleep(Duration::from_micros(200));
+    }
+    if use_turns {
+        let s = sched();
+        let mut g = s.m.lock().unwrap();
+        g.active = false;
+        s.cv.notify_all();
+    }
+    if ok {
+        for h in handles {
+            let _ = h.join();
+        }
+        if let Some(g) = gate_thread {
+            let _ = g.join();
+        }
+        // probes after the schedule (thread T0 again), under the same watchdog
+        let post: Vec<Value> = case.get("post").and_then(|x| x.as_array()).cloned().unwrap_or_default();
+        if !post.is_empty() {
+            let (l2, w2, c2, d2) = (log.clone(), w.clone(), cid.clone(), done.clone());
+            let pt = std::thread::spawn(move || {
+                for c in &post {
+                    logged_call(&l2, &w2, &c2, "T0", c);
+                }
+                d2.fetch_add(1, Ordering::SeqCst);
+            });
+            let t1 = Instant::now();
+            while done.load(Ordering::SeqCst) < nthreads + 1 {
+                if t1.elapsed() > limit {
+                    return false;
+                }
+                std::thread::sleep(Duration::from_micros(200));
+            }
+            let _ = pt.join();
+        }
+        // leave the global tables clean for the next case of this process: close whatever is left
+        let g = w.lock().unwrap();
+        for (_, real) in g.hmap.iter() {
+            unsafe {
+                storm::SFileFindClose(*real as storm::HANDLE);
+                storm::SFileCloseFile(*real as storm::HANDLE);
+            }
+        }
+        for (_, real) in g.hmap.iter() {
+            storm::SFileCloseArchive(*real as storm::HANDLE);
+        }
+        if gate_h != 0 {
+            storm::SFileCloseArchive(gate_h as storm::HANDLE);
+        }
+    }
+    ok
+}
+
+fn worker(a: &Args) -> ! {
+    let start: usize = a.extra[1].parse().unwrap();
+    let stem = a.extra[2].clone();
+    let cases = read_cases(&a.cases);
+    let log = Arc::new(Log { t: Trace::create(&a.trace), pending: Mutex::new(HashMap::new()) });
+    #[cfg(c19_has_hook)]
+    storm::verif_set_sync(sync_hook);
+    let limit = Duration::from_millis(if thorough() { 5000 } else { 2500 });
+    for i in start..cases.len() {
+        std::fs::write(format!("{stem}.idx"), format!("{i}")).ok();
+        if !run_case(&log, i, &cases[i], limit) {
+            // hang: close the open calls, ask for a restart behind this case
+            let cid = format!("{}:{}", i, gs(&cases[i], "kind"));
+            let p: Vec<(String, String)> = log.pending.lock().unwrap().iter().map(|(k, v)| (k.clone(), v.0.clone())).collect();
+            let mut p = p;
+            p.sort();
+            for (th, f) in p {
+                log.ev(json!({"ev":"Ret","case":cid,"th":th,"fn":f,"st":"hang","ret":0,"out":[],"err":"other","rres":"-","canary":true}));
+            }
+            std::fs::write(format!("{stem}.resume"), format!("{}", i + 1)).ok();
+            std::process::exit(3);
+        }
+    }
+    std::fs::write(format!("{stem}.resume"), format!("{}", cases.len())).ok();
+    std::process::exit(0);
+}
+
+fn main() {
+    install_quiet_panic_hook();
+    let a = args();
+    if a.extra.first().map(|s| s.as_str()) == Some("worker") {
+        worker(&a);
+    }
+    let cases = read_cases(&a.cases);
+    let exe = std::env::current_exe().unwrap();
+    let mut start = 0usize;
+    let mut part = 0usize;
+    let mut out = std::fs::File::create(&a.trace).unwrap_or_else(|e| tool_error(&format!("create trace: {e}")));
+    let mut restarts = 0;
+    while start < cases.len() {
+        part += 1;
+        let stem = format!("{}.p{}", a.trace.display(), part);
+        let pfile = format!("{stem}.ndjson");
+        let mut child = std::process::Command::new(&exe)
+            .arg(&a.cases).arg(&pfile).arg("worker").arg(start.to_string()).arg(&stem)
+            .stdout(std::process::Stdio::null()).stderr(std::process::Stdio::null())
+            .spawn().unwrap_or_else(|e| tool_error(&format!("spawn worker: {e}")));
+        let t0 = Instant::now();
+        let status = loop {
+            match child.try_wait() {
+                Ok(Some(s)) => break Some(s),
+                Ok(None) => {
+                    if t0.elapsed() > Duration::from_secs(1500) {
+                        let _ = child.kill();
+                        let _ = child.wait();
+                        break None;
+                    }
+                    std::thread::sleep(Duration::from_millis(5));
+                }
+                Err(e) => tool_error(&format!("wait: {e}")),
+            }
+        };
+        let text = std::fs::read_to_string(&pfile).unwrap_or_default();
+        use std::io::Write;
+        let mut lines: Vec<&str> = text.lines().collect();
+        // a torn last line (worker died while writing) is dropped
+        if let Some(l) = lines.last() {
+            if serde_json::from_str::<Value>(l).is_err() {
+                lines.pop();
+            }
+        }
+        for l in &lines {
+            writeln!(out, "{l}").unwrap();
+        }
+        let clean = matches!(status.and_then(|s| s.code()), Some(0) | Some(3));
+        if clean {
+            start = std::fs::read_to_string(format!("{stem}.resume")).ok().and_then(|s| s.trim().parse().ok())
+                .unwrap_or_else(|| tool_error("worker left no resume file"));
+        } else {
+            // the worker died: close the calls that were in flight with st = "abort"
+            let idx: usize = std::fs::read_to_string(format!("{stem}.idx")).ok().and_then(|s| s.trim().parse().ok()).unwrap_or(start);
+            let mut open: HashMap<String, (String, String)> = HashMap::new();
+            for l in &lines {
+                let v: Value = serde_json::from_str(l).unwrap();
+                match v["ev"].as_str() {
+                    Some("Reset") => open.clear(),
+                    Some("Inv") => {
+                        open.insert(v["th"].as_str().unwrap().to_string(), (v["fn"].as_str().unwrap().to_string(), v["case"].as_str().unwrap().to_string()));
+                    }
+                    Some("Ret") => {
+                        open.remove(v["th"].as_str().unwrap());
+                    }
+                    _ => {}
+                }
+            }
+            let mut o: Vec<_> = open.into_iter().collect();
+            o.sort();
+            let st = if status.is_none() { "hang" } else { "abort" };
+            for (th, (f, cid)) in o {
+                writeln!(out, "{}", json!({"ev":"Ret","case":cid,"th":th,"fn":f,"st":st,"ret":0,"out":[],"err":"other","rres":"-","canary":true})).unwrap();
+            }
+            start = idx + 1;
+        }
+        for ext in ["ndjson", "idx", "resume"] {
+            let _ = std::fs::remove_file(format!("{stem}.{ext}"));
+        }
+        restarts += 1;
+        if restarts > cases.len() + 5 {
+            tool_error("too many worker restarts");
+        }
+    }
+}
